@@ -410,18 +410,18 @@ func (m *MetricStorage) applyGroupOperations(group string, ops []operation.Metri
 			continue
 		}
 		labels := MergeLabels(op.Labels, commonLabels)
+		// The 'add' and 'set' shortcuts are already translated to Action and Value
+		// when operations are parsed from file: do not apply them twice.
 		if op.Action == "add" && op.Value != nil {
 			m.groupedVault.CounterAdd(group, op.Name, *op.Value, labels)
-		}
-		//nolint:staticcheck
-		if op.Add != nil {
+			//nolint:staticcheck
+		} else if op.Add != nil {
 			m.groupedVault.CounterAdd(group, op.Name, *op.Add, labels)
 		}
 		if op.Action == "set" && op.Value != nil {
 			m.groupedVault.GaugeSet(group, op.Name, *op.Value, labels)
-		}
-		//nolint:staticcheck
-		if op.Set != nil {
+			//nolint:staticcheck
+		} else if op.Set != nil {
 			m.groupedVault.GaugeSet(group, op.Name, *op.Set, labels)
 		}
 	}
